@@ -447,11 +447,11 @@ def prop_shape(rc):
 
 
 SUBS = [
-    Sub("loop", lambda tier: G.loop_recipe(tier), prop_loop, budget=dict(quick=2000, thorough=50000),
-        floor=dict(quick=110, thorough=2600),
+    Sub("loop", lambda tier: G.loop_recipe(tier), prop_loop, budget=dict(quick=1500, thorough=50000),
+        floor=dict(quick=85, thorough=2600),
         nontrivial_rule="pipeline constructed, trip count >= 1, at least one buffer duplicated"),
-    Sub("shape", lambda tier: G.shape_recipe(tier), prop_shape, budget=dict(quick=300, thorough=3000),
-        floor=dict(quick=8, thorough=40),
+    Sub("shape", lambda tier: G.shape_recipe(tier), prop_shape, budget=dict(quick=200, thorough=3000),
+        floor=dict(quick=6, thorough=40),
         nontrivial_rule="the deviating loop was pipelined anyway (trip count >= 1, a buffer duplicated)"),
     Sub("grid", lambda tier: st.nothing(), prop_grid, budget=dict(quick=0, thorough=0), exhaustive=G.grid, exhaustive_only=True,
         floor=dict(quick=8, thorough=95),
